@@ -332,3 +332,206 @@ Section WithJson.
       rewrite extract_obj, F1, F2. simpl. rewrite sort_keys_sorted by now rewrite F0. auto.
   Qed.
 End WithJson.
+
+(** * Leaves, numbering *)
+Section JbInd.
+  Variable P : jb -> Prop.
+  Hypothesis Hnull : P BNull.
+  Hypothesis Hbool : forall b, P (BBool b).
+  Hypothesis Hint : forall z, P (BInt z).
+  Hypothesis Hstr : forall s, P (BStr s).
+  Hypothesis Hbin : forall b, P (BBin b).
+  Hypothesis Harr : forall l, Forall P l -> P (BArr l).
+  Hypothesis Hobj : forall kvs, Forall (fun kv => P (snd kv)) kvs -> P (BObj kvs).
+  Fixpoint jb_ind' (b : jb) : P b :=
+    match b with
+    | BNull => Hnull
+    | BBool x => Hbool x
+    | BInt z => Hint z
+    | BStr s => Hstr s
+    | BBin x => Hbin x
+    | BArr l =>
+      Harr l ((fix go (l : list jb) : Forall P l :=
+                 match l with [] => Forall_nil _ | x :: l' => Forall_cons _ (jb_ind' x) (go l') end) l)
+    | BObj kvs =>
+      Hobj kvs ((fix go (l : list (bytes * jb)) : Forall (fun kv => P (snd kv)) l :=
+                   match l with [] => Forall_nil _ | kv :: l' => Forall_cons _ (jb_ind' (snd kv)) (go l') end) kvs)
+    end.
+End JbInd.
+
+(** The binary leaves of a shape, left to right. *)
+Fixpoint leaves (b : jb) : list bytes :=
+  match b with
+  | BBin x => [x]
+  | BArr l => flat_map leaves l
+  | BObj kvs => flat_map (fun kv => leaves (snd kv)) kvs
+  | _ => []
+  end.
+
+(** The numbers of the placeholders of a JSON value, left to right. *)
+Fixpoint phs (j : jv) : list N :=
+  match j with
+  | JObj [(k1, JBool true); (k2, JInt z)] =>
+    if bytes_eqb k1 k_ph && bytes_eqb k2 k_num then [Z.to_N z] else []
+  | JArr l => flat_map phs l
+  | JObj kvs => flat_map (fun kv => phs (snd kv)) kvs
+  | _ => []
+  end.
+
+Fixpoint nseq (n : N) (k : nat) : list N :=
+  match k with O => [] | S k' => n :: nseq (n + 1) k' end.
+
+(** [extract] hands out the attachments of a shape in left-to-right order and counts them. *)
+Lemma extract_leaves : forall b n,
+  snd (fst (extract b n)) = leaves b /\ snd (extract b n) = n + N.of_nat (length (leaves b)).
+Proof.
+  induction b using jb_ind'; intros n; try (simpl; split; [reflexivity|lia]).
+  - rewrite extract_arr. cbn [leaves].
+    assert (G : forall n, snd (fst (ex_list l n)) = flat_map leaves l /\
+                          snd (ex_list l n) = n + N.of_nat (length (flat_map leaves l))).
+    { clear n. induction H as [|x l Hx Hl IH]; intros n; simpl; [split; [reflexivity|lia]|].
+      destruct (Hx n) as [A1 A2]. destruct (extract x n) as [[j b1] n1]. simpl in A1, A2. subst.
+      destruct (IH (n + N.of_nat (length (leaves x)))) as [B1 B2].
+      destruct (ex_list l _) as [[t b2] n2]. simpl in *. subst. rewrite app_length. split; [reflexivity|lia]. }
+    destruct (G n) as [A1 A2]. destruct (ex_list l n) as [[js bs] n']. exact (conj A1 A2).
+  - rewrite extract_obj. cbn [leaves].
+    assert (G : forall n, snd (fst (ex_obj kvs n)) = flat_map (fun kv => leaves (snd kv)) kvs /\
+                          snd (ex_obj kvs n) = n + N.of_nat (length (flat_map (fun kv => leaves (snd kv)) kvs))).
+    { clear n. induction H as [|[k x] l Hx Hl IH]; intros n; simpl; [split; [reflexivity|lia]|].
+      simpl in Hx. destruct (Hx n) as [A1 A2]. destruct (extract x n) as [[j b1] n1]. simpl in A1, A2. subst.
+      destruct (IH (n + N.of_nat (length (leaves x)))) as [B1 B2].
+      destruct (ex_obj l _) as [[t b2] n2]. simpl in *. subst. rewrite app_length. split; [reflexivity|lia]. }
+    destruct (G n) as [A1 A2]. destruct (ex_obj kvs n) as [[js bs] n']. exact (conj A1 A2).
+Qed.
+
+(** hasBinary answers yes only if the shape has a binary leaf. *)
+Lemma hb_leaves : forall v u, hb u v = true -> leaves (shape v) <> [].
+Proof.
+  induction v using gv_ind'; intros u Hb; simpl in Hb; try discriminate.
+  - destruct u; [discriminate|]. simpl. eauto.
+  - destruct u; [discriminate|]. simpl. eauto.
+  - simpl. induction H as [|x l Hx Hl IH]; simpl in *; [discriminate|].
+    apply orb_true_iff in Hb as [Hb|Hb].
+    + specialize (Hx _ Hb). destruct (leaves (shape x)); [contradiction|intro E; discriminate E].
+    + specialize (IH Hb). intro E. apply app_eq_nil in E as [_ E]. contradiction.
+  - simpl. induction H as [|[k x] l Hx Hl IH]; simpl in *; [discriminate|].
+    apply orb_true_iff in Hb as [Hb|Hb].
+    + specialize (Hx _ Hb). destruct (leaves (shape x)); [contradiction|intro E; discriminate E].
+    + specialize (IH Hb). intro E. apply app_eq_nil in E as [_ E]. contradiction.
+  - cbn [shape leaves].
+    assert (G : flat_map (fun kv => leaves (snd kv)) (map (fun '(k, x) => (k, shape x)) kvs) <> []).
+    { induction H as [|[k x] l Hx Hl IH]; simpl in *; [discriminate|].
+      apply orb_true_iff in Hb as [Hb|Hb].
+      + specialize (Hx _ Hb). destruct (leaves (shape x)); [contradiction|intro E; discriminate E].
+      + specialize (IH Hb). intro E. apply app_eq_nil in E as [_ E]. contradiction. }
+    (* sorting permutes the entries; it keeps the set of leaves non-empty *)
+    intro E. apply G. clear G H Hb.
+    assert (P : forall (l : list (bytes * jb)),
+              flat_map (fun kv => leaves (snd kv)) (sort_keys l) = [] ->
+              flat_map (fun kv => leaves (snd kv)) l = []).
+    { clear. induction l as [|[k x] l IH]; simpl; [auto|]. intros E.
+      assert (I : forall (t : list (bytes * jb)),
+                flat_map (fun kv => leaves (snd kv)) (ins_key k x t) = [] ->
+                leaves x = [] /\ flat_map (fun kv => leaves (snd kv)) t = []).
+      { induction t as [|[k2 y] t IHt]; simpl.
+        - intros F. apply app_eq_nil in F. exact F.
+        - destruct (bytes_ltb k2 k); simpl; intros F; apply app_eq_nil in F as [F1 F2].
+          + destruct (IHt F2) as [G1 G2]. rewrite F1, G2. auto.
+          + apply app_eq_nil in F2 as [F2 F3]. rewrite F2, F3. auto. }
+      destruct (I _ E) as [E1 E2]. rewrite E1, (IH E2). reflexivity. }
+    apply P. exact E.
+Qed.
+
+(** * The frames are the ones the v5 protocol prescribes *)
+(** Side condition on the value: a tree ([cleanb]), maps in key order, every Binary within reach
+    of deconstruct's unwrapping and seen by hasBinary. *)
+Definition wfv (x : gv) : bool :=
+  cleanb x && msorted x && wokp false 2 x && (hb 2 x || nobin x).
+(** Packet types: only EVENT / ACK (and their binary forms) carry binary; a header that already
+    has the binary type comes with a value that has binary. *)
+Definition carries_binary (t : N) : bool := (t =? 2) || (t =? 3) || is_binary t.
+Definition pkt_ok (h : header) (x : gv) : bool :=
+  (carries_binary (h_type h) || nobin x) && (negb (is_binary (h_type h)) || hb 2 x).
+Definition base_type (t : N) : N := if is_binary t then t - 3 else t.
+
+Lemma nsp_part nsp : nsp <> [] ->
+  match nsp with
+  | [] => []
+  | [c] => if c =? 47 then [] else [c; 44]
+  | _ => nsp ++ [44]
+  end = if bytes_eqb nsp [47] then [] else nsp ++ [44].
+Proof.
+  destruct nsp as [|c [|d r]]; intros H; [contradiction| |].
+  - unfold bytes_eqb. simpl. destruct (c =? 47); reflexivity.
+  - unfold bytes_eqb. simpl. destruct (c =? 47); reflexivity.
+Qed.
+
+Section Wire.
+  Variable marshal : jv -> bytes.
+  Variable unmarshal : bytes -> option jv.
+  Hypothesis H1 : forall j, unmarshal (marshal j) = Some j.
+  Variable max_att : Z.
+
+  (** deconstruct, seen from the wire: the JSON encoder is shown exactly [extract (shape v)]:
+      placeholders numbered from [n] left to right, the buffers are the leaves in that order. *)
+  Theorem dv_spec st v n m bs n' :
+    cleanb v = true -> msorted v = true -> wokp false 2 v = true ->
+    dv marshal st v n = Ok (m, bs, n') ->
+    exists j, to_jv unmarshal (cur m) = Ok j /\ extract (shape v) n = (j, bs, n') /\
+              bs = leaves (shape v) /\ n' = n + N.of_nat (length bs).
+  Proof.
+    intros C S W E. unfold dv in E.
+    assert (R : rel unmarshal (cur m) v n bs n').
+    { eapply fin_rel; eauto. apply dvw_rel_all; auto. }
+    destruct R as (j & J1 & J2).
+    exists j. pose proof (extract_leaves (shape v) n) as [L1 L2]. rewrite J2 in L1, L2. simpl in L1, L2.
+    subst bs. auto.
+  Qed.
+
+  Theorem wire_is_v5 h x e :
+    wfv x = true -> pkt_ok h x = true -> h_nsp h <> [] ->
+    encode marshal unmarshal max_att h (Some x) = Ok e ->
+    e_frames e = spec_frames marshal (base_type (h_type h)) (h_nsp h) (h_id h) (Some (shape x)).
+  Proof.
+    unfold wfv, pkt_ok. intros Wf Pk Hn E.
+    apply andb_true_iff in Wf as [Wf HX]. apply andb_true_iff in Wf as [Wf W].
+    apply andb_true_iff in Wf as [C S]. apply andb_true_iff in Pk as [P1 P2].
+    unfold encode in E. destruct (negb (arg_ok x)); [discriminate|].
+    fold (carries_binary (h_type h)) in E.
+    destruct (carries_binary (h_type h) && hb 2 x) eqn:B.
+    - apply andb_true_iff in B as [B1 B2].
+      destruct (dv marshal false x 0) as [[[m bufs] n]| |] eqn:D; try discriminate.
+      destruct ((0 <? max_att)%Z && (max_att <? Z.of_N n)%Z); [discriminate|].
+      destruct (dv_spec false x 0 m bufs n C S W D) as (j & J1 & J2 & J3 & J4).
+      unfold encode_string in E. rewrite J1 in E. simpl in E. inversion E; subst e; clear E. cbn [e_frames].
+      unfold spec_frames. rewrite J2.
+      assert (NE : bufs <> []) by (rewrite J3; eapply hb_leaves; eauto).
+      destruct bufs as [|b0 bufs']; [contradiction|]. f_equal.
+      unfold encode_header. cbn [h_type h_nsp h_id h_att].
+      set (t' := if h_type h =? 2 then 5 else if h_type h =? 3 then 6 else h_type h).
+      assert (T : is_binary t' = true /\ t' = base_type (h_type h) + 3).
+      { unfold t', base_type, carries_binary, is_binary in *.
+        destruct (h_type h =? 2) eqn:A2; [apply N.eqb_eq in A2; rewrite A2; split; reflexivity|].
+        destruct (h_type h =? 3) eqn:A3; [apply N.eqb_eq in A3; rewrite A3; split; reflexivity|].
+        simpl in B1. rewrite B1. split; [reflexivity|].
+        apply orb_true_iff in B1 as [B1|B1]; apply N.eqb_eq in B1; rewrite B1; reflexivity. }
+      destruct T as [T1 T2]. rewrite T1, <- T2.
+      rewrite nsp_part by exact Hn.
+      assert (F : fmt_int (Z.of_N n) = fmt_uint (N.of_nat (length (b0 :: bufs')))).
+      { unfold fmt_int. assert ((Z.of_N n <? 0)%Z = false) by lia. rewrite H. rewrite N2Z.id. f_equal. lia. }
+      rewrite F. rewrite <- !app_assoc. reflexivity.
+    - assert (NB : nobin x = true).
+      { apply andb_false_iff in B as [B|B].
+        - rewrite B in P1. exact P1.
+        - rewrite B in HX. exact HX. }
+      assert (NBin : is_binary (h_type h) = false).
+      { destruct (is_binary (h_type h)) eqn:IB; [|reflexivity].
+        simpl in P2. unfold carries_binary in B. rewrite IB, P2 in B.
+        rewrite !orb_true_r in B. discriminate. }
+      destruct (nobin_rel unmarshal x C NB S 0) as (j & J1 & J2).
+      unfold encode_string in E. rewrite J1 in E. simpl in E. inversion E; subst e; clear E. cbn [e_frames].
+      unfold spec_frames. rewrite J2. f_equal.
+      unfold encode_header, base_type. rewrite NBin. rewrite nsp_part by exact Hn.
+      rewrite <- !app_assoc. reflexivity.
+  Qed.
+End Wire.
